@@ -678,13 +678,13 @@ func watchReal2Case(c Case, dir string) string {
 		}
 		return ls
 	}
-	has := func(prefix string, d time.Duration) bool {
+	// The two tasks append to one file concurrently and the shell writes a line and its terminator in separate
+	// calls, so lines of the two watchers may run into each other: markers are looked for in the whole content.
+	has := func(marker string, d time.Duration) bool {
 		deadline := time.Now().Add(d)
 		for time.Now().Before(deadline) {
-			for _, l := range lines() {
-				if strings.HasPrefix(l, prefix) {
-					return true
-				}
+			if b, _ := os.ReadFile(logf); strings.Contains(string(b), "EV "+marker) {
+				return true
 			}
 			time.Sleep(100 * time.Millisecond)
 		}
@@ -709,10 +709,8 @@ func watchReal2Case(c Case, dir string) string {
 	if !has("B write b/two.txt", 15*time.Second) {
 		return fmt.Sprintf("KIND:watch2-event-lost:a write to b/two.txt (observed by w2) did not run w2's task; log %v", lines())
 	}
-	for _, l := range lines() {
-		if strings.HasPrefix(l, "A write b/") || strings.HasPrefix(l, "B write a/") {
-			return fmt.Sprintf("KIND:watch2-wrong-watcher:an event on a path of one watcher ran the other watcher's task: %q", l)
-		}
+	if b, _ := os.ReadFile(logf); strings.Contains(string(b), "EV A write b/") || strings.Contains(string(b), "EV B write a/") {
+		return fmt.Sprintf("KIND:watch2-wrong-watcher:an event on a path of one watcher ran the other watcher's task: %v", lines())
 	}
 	return ""
 }
